@@ -4,7 +4,7 @@ Every property module ``harness/cXX.py`` exposes
 
     PROP            property id ("C16")
     LEAN_MODULES    Lean modules holding the property theorems (built + audited every run)
-    GENERATED       (optional) True if the translator must be re-run first
+    GENERATED       (optional) list of translator plug-ins (tools/extractors/<name>.py) to re-run first
     run(ctx)        correspondence + direct oracle; reports through ctx
     replay(ctx, obj)  (optional) re-execute one replay file; return True iff it still fails
 
